@@ -15,6 +15,32 @@ use lzma_rs::decompress::raw::Lzma2Decoder;
 use lzma_rs::decompress::UnpackedSize;
 
 const TRAIL_NAMES: [&str; 8] = ["none", "one 0x00", "one 0xFF", "random 1-64", "another stream", "zero bytes x 4k (what the container format calls padding)", "zero bytes, other counts", "container magic / header-like bytes"];
+/// The whole-file decoders must also reject trailing bytes when the reader, at one of its last
+/// calls (among them the end-of-input probe), reports a retryable interruption first: any error is
+/// fine, success is not.
+fn reject_despite_interruption(entry: Entry, tag: &str, data: &[u8], rk: ReaderKind, out: &mut CaseOut, cov: &mut Cov) {
+    use crate::gen::io::ReadStats;
+    use std::cell::RefCell;
+    use std::rc::Rc;
+    let rs = Rc::new(RefCell::new(ReadStats::default()));
+    let _ = sut::decode_with_stats(entry, data, &sut::default_options(), rk, &SharedSink::new(), &sut::new_obs(u64::MAX), rs.clone());
+    let n = rs.borrow().calls;
+    for k in n.saturating_sub(4).max(1)..=n {
+        let rs = Rc::new(RefCell::new(ReadStats { interrupt_at: Some(k), ..Default::default() }));
+        let c = sut::decode_with_stats(entry, data, &sut::default_options(), rk, &SharedSink::new(), &sut::new_obs(u64::MAX), rs.clone());
+        out.evals += 1;
+        cov.name("trailing_bytes_with_reader_interrupted_near_the_end", 1);
+        if c.verdict.is_ok() {
+            out.violate(
+                format!("C11/{}/trailing-bytes-accepted-when-the-reader-is-interrupted", tag),
+                format!("{} with trailing bytes, reader {} interrupted once at call {} of {}: Ok", tag, rk.name(), k, n),
+                J::obj().set("input_hex", J::s(crate::util::hex_trunc(data, 2048))),
+            );
+            return;
+        }
+    }
+}
+
 const API_NAMES: [&str; 6] = [
     "lzma header-size",
     "lzma provided-size",
@@ -212,6 +238,8 @@ fn fam_lzma(ctx: &CaseCtx, cov: &mut Cov) -> CaseOut {
                     ),
                     J::obj().set("input_hex", J::s(crate::util::hex_trunc(&f, 2048))),
                 );
+            } else if rng.chance(1, 3) {
+                reject_despite_interruption(Entry::Lzma, "lzma-marker", &f, rk, &mut out, cov);
             }
             // and the same file without them is fine (so the rejection is about the trailing bytes)
             let sink = SharedSink::new();
@@ -314,6 +342,8 @@ fn fam_lzma2(ctx: &CaseCtx, cov: &mut Cov) -> CaseOut {
                 format!(".xz followed by {} bytes ({}), reader {}: {}", t.len(), TRAIL_NAMES[which], rk.name(), c.verdict.short()),
                 J::obj().set("input_hex", J::s(crate::util::hex_trunc(&f2, 2048))),
             );
+        } else if rng.chance(1, 3) {
+            reject_despite_interruption(Entry::Xz, "xz", &f2, rk, &mut out, cov);
         }
     }
     out.sample = Some(
